@@ -59,6 +59,18 @@ def gen_in_site(rng, name, idx, opts):
             'capture': capture, 'resolver': resolver, 'nargs': nargs, 'kwnames': kwnames,
             'handler': rng.choice(['', '', '', 'wrap'] + (['fail'] if opts.get('faults') else [])),
             'runOriginal': False, 'substitute': None, 'fallbacks': None}
+    if opts.get('policies'):
+        site['runOriginal'] = rng.random() < 0.2
+        site['substitute'] = rng.choice([None, None, {'const': {'i': '0'}}, {'const': {'s': ''}}, {'const': {'l': []}},
+                                         {'const': {'d': []}}, {'const': False}, {'const': {'i': '5'}}, 'echo',
+                                         {'raises': 'ValueError'}])
+        if flavor == 'property' and site['substitute'] == 'echo':
+            site['substitute'] = {'const': {'t': []}}
+        if rng.random() < 0.35:
+            site['fallbacks'] = rng.sample(['fetch', 'load', 'cfg', 'in0', 'in1', 'gone'], rng.randint(1, 2))
+            site['fallbacksAsFunction'] = rng.random() < 0.4
+        elif opts.get('faults') and rng.random() < 0.05:
+            site['fallbacks'] = 'raises'
     # the body's result is a function of the alias and the captured arguments only (the design's premise)
     keyparts = [{'v': 'a%d' % p} for p in cap_pos if not (isinstance(resolver, dict) and False)]
     if isinstance(resolver, dict) and resolver['arg'] not in cap_pos:
@@ -100,6 +112,9 @@ def gen_out_site(rng, name, idx, opts):
     body.append({'op': 'ret', 'e': rng.choice([const(None), const({'s': 'ack'}), {'t': [{'v': 'a%d' % i} for i in range(nargs)]},
                                                const(rand_value(rng, 2))])})
     site['body'] = body
+    if opts.get('policies'):
+        site['failOnMissing'] = rng.random() < 0.6
+        site['default'] = rng.choice([None, {'i': '0'}, {'s': 'dflt'}, {'t': []}])
     return site
 
 
